@@ -157,19 +157,40 @@ def _worker_inner(modname, obname, tier, outpath):
                 import random
                 rng = random.Random(int(os.environ.get("VERIF_SEED", "0") or 0) + 17)
                 base = c["models"][0] if c["models"] else {"values": {}, "prefix": [], "tags": []}
-                for _try in range(24):
-                    vals = dict(base["values"])
-                    for n, (lo, hi, pos, neg) in c["domains"].items():
-                        if isinstance(vals.get(n), (bool, int, str)) and not isinstance(vals.get(n), float):
-                            continue
-                        if lo is not None and hi is not None:
-                            vals[n] = rng.uniform(lo + 0.05 * (hi - lo), hi - 0.05 * (hi - lo))
-                        elif pos or (lo is not None and lo >= 0):
-                            vals[n] = (lo or 0.0) + rng.uniform(0.2, 3.0)
-                        elif neg or (hi is not None and hi <= 0):
-                            vals[n] = (hi or 0.0) - rng.uniform(0.2, 3.0)
-                        else:
-                            vals[n] = rng.uniform(-3.0, 3.0)
+
+                def sample(n, lo, hi, pos, neg):
+                    if lo is not None and hi is not None:
+                        return rng.uniform(lo + 0.05 * (hi - lo), hi - 0.05 * (hi - lo))
+                    if pos or (lo is not None and lo >= 0):
+                        return (lo or 0.0) + rng.uniform(0.02, 3.0)
+                    if neg or (hi is not None and hi <= 0):
+                        return (hi or 0.0) - rng.uniform(0.02, 3.0)
+                    return rng.uniform(-3.0, 3.0)
+
+                def is_real_input(n):
+                    return not (isinstance(base["values"].get(n), (bool, int, str)) and not isinstance(base["values"].get(n), float))
+
+                def candidates():
+                    names = [n for n in c["domains"] if is_real_input(n)]
+                    # (1) the solver model with ONE input re-sampled (the model is usually right except for the point at which an
+                    #     uninterpreted function was given a value no real function takes)
+                    if base["values"]:
+                        for n in names:
+                            for _k in range(10):
+                                vals = dict(base["values"])
+                                vals[n] = sample(n, *c["domains"][n])
+                                yield vals
+                    # (2) everything re-sampled
+                    for _try in range(24):
+                        vals = dict(base["values"])
+                        for n in names:
+                            vals[n] = sample(n, *c["domains"][n])
+                        yield vals
+
+                t_search = time.time()
+                for vals in candidates():
+                    if time.time() - t_search > 45:
+                        break
                     ok, info = replay_conc(ob, cname, vals, tier)
                     if ok:
                         c["models"].append({"values": vals, "prefix": base["prefix"], "tags": base["tags"], "found_by": "concrete search after an undecided/unreplayable solver answer"})
